@@ -23,7 +23,7 @@ for spec in sys.argv[3:]:
     if mm:
         needs = " ".join(mm.group(1).split())[:400]
     meta = {"id": sid, "properties": [prop],
-            "origin": "independent sub-agent (round %s: given only the property text and a scratch worktree, asked for two changes attacking different clauses)" % {"C": "3", "E": "4", "F": "5", "G": "6", "H": "7", "I": "8", "J": "9", "K": "10", "L": "11", "N": "12", "P": "13", "Q": "14", "R": "15", "S": "16", "T": "17"}.get(prefix, prefix),
+            "origin": "independent sub-agent (round %s: given only the property text and a scratch worktree, asked for two changes attacking different clauses)" % {"C": "3", "E": "4", "F": "5", "G": "6", "H": "7", "I": "8", "J": "9", "K": "10", "L": "11", "N": "12", "P": "13", "Q": "14", "R": "15", "S": "16", "T": "17", "U": "18"}.get(prefix, prefix),
             "what": first, "needs": needs, "demo_dir": demodir}
     mf = os.path.join(dst, "meta.json")
     if os.path.exists(mf):
